@@ -28,6 +28,10 @@ func (r *verifC13_holdingReporter) ReportEntry(nextCookie uint64, name path.Comp
 
 func verifHarness_C13_ListingWaitsForBusyChild() {
 	rt.MustCover("busy:renamed-away", "busy:left-alone", "busy:resumed-page")
+	verifC13_listingWaitsForBusyChild()
+}
+
+func verifC13_listingWaitsForBusyChild() {
 	ctx := context.Background()
 	s := verifC13_newState(nil)
 	root := s.dirs[0].real
@@ -88,6 +92,8 @@ func verifHarness_C13_ListingWaitsForBusyChild() {
 	}
 	close(holder.hold)
 	rt.WaitAll()
+	rt.AssertUnlocked(&root.lock, "the listed directory's lock is released when the listing returns")
+	rt.AssertUnlocked(&d.lock, "the busy child's lock is released when both listings returned")
 	rt.AssertNoLocksHeld("no directory lock is left behind")
 	rt.Assert(done && st == StatusOK, "the listing completes")
 	seen := map[string]int{}
